@@ -146,16 +146,22 @@ func main() {
 	replay := flag.String("replay", "", "replay file")
 	volume := flag.Int("volume", 0, "override volume")
 	corpusDir := flag.String("corpus", "", "corpus directory")
+	mkCorpus := flag.String("mkcorpus", "", "write the built-in corpus to this directory and exit")
 	flag.Parse()
 	thr, _ := strconv.ParseFloat(*thrStr, 64)
 	start := time.Now()
 
+	if *mkCorpus != "" {
+		writeCorpus(*mkCorpus)
+		return
+	}
 	if *replay != "" {
 		os.Exit(doReplay(*replay, *modelBin, thr))
 	}
 
 	fams := familiesFor(*prop)
-	if len(fams) == 0 {
+	concurrent := *prop == "C20"
+	if len(fams) == 0 && !concurrent {
 		fmt.Fprintf(os.Stderr, "no scenario families for %s\n", *prop)
 		os.Exit(2)
 	}
@@ -173,6 +179,17 @@ func main() {
 	// corpus first
 	for _, s := range loadCorpus(*corpusDir, *prop) {
 		scens = append(scens, s)
+	}
+	if concurrent {
+		cs, problems := runConcurrent(*seed, *tier)
+		scens = append(scens, cs...)
+		for i, p := range problems {
+			if i >= 5 {
+				break
+			}
+			res.Violations = append(res.Violations, Violation{Family: "concurrent", Kind: "violation",
+				Mismatch: &Mismatch{Cmd: -1, What: "a goroutine's result differs from the sequential result", Observed: p}})
+		}
 	}
 	for _, f := range fams {
 		n := f.Weight * vol
@@ -215,13 +232,13 @@ func main() {
 			distinct[key] = true
 			res.DistinctNontriv++
 		}
-		m0, vals, inex := compareScenario(s, outs[2*i], thr, true)
+		m0, vals, inex := compareScenario(s, outs[2*i], thr, !concurrent)
 		res.ValuesCompared += vals
 		res.InexactMatches += inex
 		if m0 == nil {
 			res.AgreeSum++
 		} else {
-			m1, _, _ := compareScenario(s, outs[2*i+1], thr, true)
+			m1, _, _ := compareScenario(s, outs[2*i+1], thr, !concurrent)
 			v := Violation{Family: s.Family, Index: i, Scenario: scenarioString(s.R.Cmds), Tokens: lines[2*i], RngSeed: s.R.rngSeed, Mismatch: m0, AvgModel: m1, Cmds: s.R.Cmds}
 			if m1 == nil {
 				res.AgreeAvgOnly++
@@ -444,6 +461,7 @@ type replayFile struct {
 	Tokens   string  `json:"scenario_tokens"`
 	RngSeed  uint64  `json:"rng_seed"`
 	Cmds     []Cmd   `json:"commands"`
+	Note     string  `json:"note,omitempty"`
 }
 
 func doReplay(path, modelBin string, thr float64) int {
